@@ -289,6 +289,13 @@ func (e *xenv) eval(n *xnode) xval {
 			e.fail = "non-numeric operand"
 			return xval{}
 		}
+		if n.bop == "%" && l.k == xInt && r.k == xInt {
+			if r.i == 0 {
+				e.fail = "modulo by zero"
+				return xval{}
+			}
+			return xval{k: xInt, i: l.i % r.i} // exact integer arithmetic (values beyond 2^53 do not survive a float64 detour)
+		}
 		if n.bop == "%" {
 			if l.num() != math.Trunc(l.num()) || r.num() != math.Trunc(r.num()) {
 				e.fail = "% with non-integral operand"
